@@ -156,6 +156,28 @@ pub fn extend_copied(v: &mut std::collections::VecDeque<u8>, s: &[u8])
         final(v)@ == old(v)@ + s@,
 { v.extend(s.iter().copied()) }
 
+/// R31: `it.map(f).sum()` over usize terms.  Assumed (std contracts of Iterator::map and of Sum for usize): the result is the sum of f over the
+/// items -- provided the mathematical sum fits usize (std panics on overflow in debug builds and wraps in release builds: NOT modelled; the
+/// callers state the bound as a named physical assumption).
+pub open spec fn usum(s: Seq<usize>) -> int
+    decreases s.len(),
+{
+    if s.len() == 0 { 0 } else { usum(s.drop_last()) + s.last() }
+}
+/// `m` is what mapping `f` over `src` yields
+pub open spec fn maps_to<A, F: Fn(A) -> usize>(f: &F, src: Seq<A>, m: Seq<usize>) -> bool {
+    m.len() == src.len() && forall|j: int| 0 <= j < src.len() ==> call_ensures(*f, (src[j],), #[trigger] m[j])
+}
+#[verifier::external_body]
+pub fn iter_map_sum<A, I: Iterator<Item = A>, F: Fn(A) -> usize>(it: I, f: &F) -> (r: usize)
+    requires
+        it.obeys_prophetic_iter_laws(),
+        it.decrease() is Some,
+        forall|j: int| 0 <= j < it.remaining().len() ==> call_requires(*f, (#[trigger] it.remaining()[j],)),
+    ensures
+        exists|m: Seq<usize>| #[trigger] maps_to(f, it.remaining(), m) && (usum(m) <= usize::MAX ==> r == usum(m)),
+{ it.map(f).sum() }
+
 /// R24: `(a..b).take_while(p).map(f)`.  Assumed (std contracts of Range<usize>, Iterator::take_while, Iterator::map): the result is a finite
 /// well-behaved iterator yielding f(a), f(a+1), .., f(k-1) where k is the first index in a..b that p rejects (k = b if there is none);
 /// p is only called on a..=k and f only on indices p accepted.  Closures are `Fn` (the repo's do not mutate their captures).
